@@ -69,6 +69,10 @@ func newBox() (*box, error) {
 			switch n {
 			case "data":
 				content = []byte("sha256:" + sentinelDigestHex(fmt.Sprintf("%d-%s", li, n)))
+			case "_persist":
+				// what a real persist sidecar of an unpinned entry holds; anything else
+				// makes Delete refuse to go on, which would hide what it removes
+				content = []byte("false")
 			default:
 				content = []byte(fmt.Sprintf("SENTINEL-%d-%s-%s", li, n, sentinelDigestHex(fmt.Sprintf("%d-%s", li, n))[:24]))
 			}
@@ -180,6 +184,9 @@ func (b *box) leaked(payload []byte) string {
 	sort.Strings(paths)
 	for _, p := range paths {
 		c := b.sentinels[p]
+		if len(c) < 16 {
+			continue // not unique ("false")
+		}
 		if bytes.Contains(payload, c) {
 			r, _ := filepath.Rel(b.root, p)
 			return r
@@ -225,3 +232,5 @@ func listFiles(dir string) []string {
 	sort.Strings(out)
 	return out
 }
+
+func readFile(p string) ([]byte, error) { return os.ReadFile(p) }
